@@ -1,7 +1,7 @@
 (* mdl.ml — script driver around the OCaml extraction of the Coq model (coq/extracted/model.ml).
    Executes the same line-oriented scripts as harness/cpp/drv.cpp and prints results in the same format. *)
 open Util
-let reset_all () = G_enc.g_enc := None; G_dec.g_dec := None; G_exp.reset (); More.reset ()
+let reset_all () = G_enc.g_enc := None; G_dec.g_dec := None; G_exp.reset (); G_blk.reset (); More.reset ()
 
 let () =
   (try while true do
@@ -10,12 +10,14 @@ let () =
       match split_ws line with
       | [] -> ()
       | "CASE" :: rest -> reset_all (); out ("CASE " ^ String.concat " " rest)
+      | "M" :: rest -> out ("mark " ^ String.concat " " rest)
       | "E" :: t -> G_enc.cmd_enc t
       | "T" :: t -> G_time.cmd_time t
       | "D" :: t -> G_dec.cmd_dec t
       | "S" :: t -> G_val.cmd_struct t
       | "X" :: t -> G_exp.cmd_exp t
       | "F" :: t -> G_exp.cmd_file t
+      | "B" :: t -> G_blk.cmd_blk t
       | c :: t -> if not (More.cmd_more c t) then out ("? unknown command " ^ c)
     end
   done with End_of_file -> ());
